@@ -165,11 +165,13 @@ theorem c01_astrans (p : SessParams) (r : RouteReq) (bs : Bytes)
     rw [raw_slot2 p r nh 2 (Or.inl rfl), raw_slot2 p r nh 17 (Or.inr rfl), modelPath_eq p r hs]
     simp [semAsPath, h4, gRaw, mk, Attr.code, AttrVal.code]
   · intro h4
+    have hpl : plainSegs (wantPath p r) = wantPath p r := by
+      rw [← modelPath_eq p r hs]; exact plainSegs_of_PathOk _ (modelPath_ok p r hs hw.2.2.2.2)
     rw [raw_slot2 p r nh 2 (Or.inl rfl), raw_slot2 p r nh 17 (Or.inr rfl), modelPath_eq p r hs]
     by_cases hb : hasBig (wantPath p r) = true
-    · simp [semAsPath, h4, hb, gRaw, mk, Attr.code, AttrVal.code]
+    · simp [semAsPath, h4, hpl, hb, gRaw, mk, Attr.code, AttrVal.code]
     · have hb' : hasBig (wantPath p r) = false := by simpa using hb
-      simp [semAsPath, h4, hb', gRaw, mk, Attr.code, AttrVal.code]
+      simp [semAsPath, h4, hpl, hb', gRaw, mk, Attr.code, AttrVal.code]
 
 /-- **When nothing is announced.** The encoder raises only for `next-hop self` on an IPv6 route when
     the session's local address is IPv4 (no address to put: `ip_self` refuses), never otherwise. -/
